@@ -235,6 +235,9 @@ type ArrayValue interface {
 
 // Array creates a Field with array type, using the ArrayValue interface.
 func Array(key string, val ArrayValue) Field {
+	if val == nil {
+		return Nil(key) // no value to encode: null, as for every other nil
+	}
 	return Field{Key: key, Type: ValueTypeArray, Any: val}
 }
 
